@@ -83,13 +83,13 @@ Definition sgates_of (gs : list gate_spec) : list sgate := map (fun g => (q1_of 
 (* ------------------------------------------------------------------------------------ *)
 (* the hypothesis that connects the guarded search space with the specification           *)
 (* ------------------------------------------------------------------------------------ *)
-(* c08_pruning_sound for one request: every assignment that meets the width limit is matched (cost-wise) by the greedy
-   incumbent or by a goal that the guarded actions reach from the start state under the derived wire-cut budget *)
+(* c08_pruning_sound for one request: every assignment that meets the width limit is matched (cost-wise) by a goal that
+   the guarded actions reach from the start state of the search, i.e. under the wire-cut budget derived from the greedy
+   incumbent: neither the guards / no-merge clauses nor the budget exclude an optimum *)
 Definition pruning_sound_for (gs : list gate_spec) (gl wl : bool) (W : nat) (mg : Q) (nq : nat) : Prop :=
   let fa := mkF gs (search_actions gl wl) W in
   forall A c, assignment_cost nq W gl wl (sgates_of gs) A = Some c ->
-    (exists g, greedy_of fa nq = Some g /\ (cost g <= c)%Q) \/
-    (exists g, reach fa (search_start fa mg nq) g /\ goal fa g /\ (cost g <= c)%Q).
+    exists g, reach fa (search_start fa mg nq) g /\ goal fa g /\ (cost g <= c)%Q.
 
 (* ------------------------------------------------------------------------------------ *)
 (* complete enumeration of the guarded search space and of the assignments                *)
@@ -248,11 +248,12 @@ Definition pruning_check (gs : list gate_spec) (gl wl : bool) (W nq : nat) : boo
       match all_costs gl wl W (sgates_of gs) (segs_init nq) 1%Q with [] => true | _ => false end
   | Some g =>
       let budget := Nat.min (max_wire_cuts_circuit gs) (max_wire_cuts_gamma (gamma_UB g)) in
-      let bound := match min_goal (goals_upto (cost g) (length gs) fa (init_state nq budget)) with
-                   | Some b => if Qltb (cost b) (cost g) then cost b else cost g
-                   | None => cost g
-                   end in
-      none_below gl wl W bound (sgates_of gs) (segs_init nq) 1%Q
+      (* the cheapest goal of the guarded space that is not worse than the greedy incumbent (one must exist: the
+         incumbent's own cuts fit into the budget derived from its gamma) *)
+      match min_goal (goals_upto (cost g) (length gs) fa (init_state nq budget)) with
+      | Some b => none_below gl wl W (cost b) (sgates_of gs) (segs_init nq) 1%Q
+      | None => false
+      end
   end.
 
 Lemma pruning_check_sound gs gl wl W mg nq : gammas_ok gs ->
@@ -267,14 +268,11 @@ Proof.
     { unfold search_start, search_budget. unfold greedy_of in EG.
       destruct (greedy_cut_optimization nq fa) as [o| | |]; try discriminate. subst o. reflexivity. }
     rewrite SS.
+    destruct (goals_upto _ _ _ _) as [|s r] eqn:EA; cbn [min_goal] in H; [discriminate|].
     assert (P1 : (0 <= 1)%Q) by discriminate.
     pose proof (none_below_sound _ _ _ _ _ _ _ _ _ _ (sgates_of_ok _ G) P1 H E Wk) as L.
-    destruct (goals_upto _ _ _ _) as [|s r] eqn:EA; cbn [min_goal] in L.
-    + left. exists g; split; auto.
-    + destruct (Qltb (cost (first_min s r)) (cost g)) eqn:LT.
-      * right. pose proof (first_min_in r s) as I. rewrite <- EA in I. apply goals_upto_sound in I. destruct I as (R&Gg).
-        exists (first_min s r). split; [exact R|split; [exact Gg|exact L]].
-      * left. exists g; split; auto.
+    pose proof (first_min_in r s) as I. rewrite <- EA in I. apply goals_upto_sound in I. destruct I as (R&Gg).
+    exists (first_min s r). split; [exact R|split; [exact Gg|exact L]].
   - exfalso. pose proof (all_costs_complete _ _ _ _ _ _ _ _ _ E Wk) as I.
     destruct (all_costs _ _ _ _ _ _); [contradiction|discriminate].
 Qed.
@@ -397,12 +395,39 @@ Lemma flag_sound_spec fuel i r : gammas_ok_in i ->
   forall A c, assignment_cost (nq_of i) (fi_W i) (fi_gate_lo i) (fi_wire_lo i) (sgates_of (fa_gates (fa_of i))) A = Some c ->
   (md_overhead (fr_meta r) <= c * c)%Q.
 Proof.
-  intros G PS H F A c HA. destruct (find_cuts_facts _ _ _ G H) as (ro&OF&Hov&Hfl).
-  rewrite Hov. apply sq_le; [apply (of_pos _ _ _ _ _ _ OF)|].
-  destruct (PS A c HA) as [(g&Eg&Lg)|(g&R&Gg&Lg)].
-  - eapply Qle_trans; [|exact Lg]. apply (of_greedy _ _ _ _ _ _ OF). exact Eg.
-  - eapply Qle_trans; [|exact Lg]. apply (of_flag _ _ _ _ _ _ OF); [congruence|exact R|exact Gg].
+  intros G PS H F A c HA. destruct (PS A c HA) as (g&R&Gg&Lg).
+  eapply Qle_trans; [exact (flag_sound_guarded fuel i r G H F g R Gg)|].
+  assert (P : (0 <= cost g)%Q).
+  { eapply (reach_ok (fa_of i)); [exact G| |exact R]. unfold okc, search_start. rewrite init_state_cost. discriminate. }
+  apply sq_le; auto.
 Qed.
+
+(* "max_gamma is at least the optimum" in terms of the specification: some assignment meets the width limit within max_gamma *)
+Definition spec_within (i : fc_input) : Prop :=
+  exists A c, assignment_cost (nq_of i) (fi_W i) (fi_gate_lo i) (fi_wire_lo i) (sgates_of (fa_gates (fa_of i))) A = Some c /\
+              (c <= fi_max_gamma i)%Q.
+
+Lemma spec_within_guarded i :
+  pruning_sound_for (fa_gates (fa_of i)) (fi_gate_lo i) (fi_wire_lo i) (fi_W i) (fi_max_gamma i) (nq_of i) ->
+  spec_within i ->
+  exists g, reach (fa_of i) (start_of i) g /\ goal (fa_of i) g /\ (cost g <= fi_max_gamma i)%Q.
+Proof.
+  intros PS (A&c&HA&Lc). destruct (PS A c HA) as (g&R&Gg&Lg). exists g. split; [exact R|split; [exact Gg|]].
+  eapply Qle_trans; eauto.
+Qed.
+
+Lemma unrestricted_spec fuel i r : gammas_ok_in i ->
+  pruning_sound_for (fa_gates (fa_of i)) (fi_gate_lo i) (fi_wire_lo i) (fi_W i) (fi_max_gamma i) (nq_of i) ->
+  find_cuts_full fuel i = Val r -> fi_max_backjumps i = None -> spec_within i ->
+  md_minimum_reached (fr_meta r) = true.
+Proof. intros G PS H MB SW. eapply unrestricted_sets_flag; eauto. now apply spec_within_guarded. Qed.
+
+Lemma seed_independent_spec fuel1 fuel2 i t1 t2 r1 r2 : gammas_ok_in i ->
+  pruning_sound_for (fa_gates (fa_of i)) (fi_gate_lo i) (fi_wire_lo i) (fi_W i) (fi_max_gamma i) (nq_of i) ->
+  fi_max_backjumps i = None -> spec_within i ->
+  find_cuts_full fuel1 (with_tape i t1) = Val r1 -> find_cuts_full fuel2 (with_tape i t2) = Val r2 ->
+  (md_overhead (fr_meta r1) == md_overhead (fr_meta r2))%Q.
+Proof. intros G PS MB SW. eapply seed_independent; eauto. now apply spec_within_guarded. Qed.
 
 (* ---- the finite-domain theorems for <= 3 gates (the part of the enumeration that is in the cone of Properties/C08.v;
         the 4-gate part is in Proofs/BestFirstSpec4*.v) ---- *)
@@ -427,6 +452,29 @@ Lemma flag_sound_bounded3 fuel i r lab c used : In (c, used) c08_domain3 ->
   (md_overhead (fr_meta r) <= k * k)%Q.
 Proof.
   intros I Eg Hn HW Ilo H F. apply (flag_sound_spec fuel i r); auto.
+  - unfold gammas_ok_in. rewrite Eg. eapply c08_domain3_gammas_ok; eauto.
+  - rewrite Eg. eapply pruning_sound_bounded3; eauto.
+Qed.
+
+Lemma unrestricted_bounded3 fuel i r lab c used : In (c, used) c08_domain3 ->
+  fa_gates (fa_of i) = gates_from lab 0 c -> used <= nq_of i <= 4 -> 1 <= fi_W i <= 4 ->
+  In (fi_gate_lo i, fi_wire_lo i) lo_combos ->
+  find_cuts_full fuel i = Val r -> fi_max_backjumps i = None -> spec_within i ->
+  md_minimum_reached (fr_meta r) = true.
+Proof.
+  intros I Eg Hn HW Ilo H MB SW. apply (unrestricted_spec fuel i r); auto.
+  - unfold gammas_ok_in. rewrite Eg. eapply c08_domain3_gammas_ok; eauto.
+  - rewrite Eg. eapply pruning_sound_bounded3; eauto.
+Qed.
+
+Lemma seed_independent_bounded3 fuel1 fuel2 i t1 t2 r1 r2 lab c used : In (c, used) c08_domain3 ->
+  fa_gates (fa_of i) = gates_from lab 0 c -> used <= nq_of i <= 4 -> 1 <= fi_W i <= 4 ->
+  In (fi_gate_lo i, fi_wire_lo i) lo_combos ->
+  fi_max_backjumps i = None -> spec_within i ->
+  find_cuts_full fuel1 (with_tape i t1) = Val r1 -> find_cuts_full fuel2 (with_tape i t2) = Val r2 ->
+  (md_overhead (fr_meta r1) == md_overhead (fr_meta r2))%Q.
+Proof.
+  intros I Eg Hn HW Ilo MB SW. apply (seed_independent_spec fuel1 fuel2 i t1 t2 r1 r2); auto.
   - unfold gammas_ok_in. rewrite Eg. eapply c08_domain3_gammas_ok; eauto.
   - rewrite Eg. eapply pruning_sound_bounded3; eauto.
 Qed.
